@@ -25,8 +25,10 @@ def mem_struct(w):
     from vsc.impl.coverage_registry import CoverageRegistry
     rg = CoverageRegistry.inst()
     out = []
-    for t in rg.covergroup_types():
-        out.append(_cg_struct(t, [_cg_struct(i, None) for i in t.cg_inst_l]))
+    # read the registry's own table (not covergroup_types(), which the reporting functions use)
+    for name, lst in rg.covergroup_type_m.items():
+        for t in lst:
+            out.append(_cg_struct(t, [_cg_struct(i, None) for i in t.cg_inst_l]))
     return out
 
 
@@ -153,11 +155,11 @@ def check_state(w, hist):
         bad("report_model_differs", "report model %r differs from the in-memory coverage %r" % (rs, mem), norm(rs), norm(mem))
     # ---- percentages of the report model
     inst_cov = []
-    for shape, cg in w.insts:
+    for shape, cg in list(w.insts) + [("other", w.other)]:
         with common.silenced():
             inst_cov.append((cg.get_model().typename, cg.get_model().type_cg, cg.get_coverage(), cg.get_inst_coverage()))
     from vsc.impl.coverage_registry import CoverageRegistry
-    types = CoverageRegistry.inst().covergroup_types()
+    types = [t for lst in CoverageRegistry.inst().covergroup_type_m.values() for t in lst]
     if len(types) == len(rm.covergroups):
         for t, rcg in zip(types, rm.covergroups):
             exp_t = [c[2] for c in inst_cov if c[1] is t]
